@@ -12,6 +12,7 @@
 //     origin = pest (CddlParser::parse failed; pestpos = pest's failure offset) | bridge (pest accepted, the bridge rejected;
 //              pestpos/pestline/pestcol = -)
 //   NOPOS\t<text>   an error variant without position
+//   X\t<hex of UTF-8 text>  -> see sweep()
 use cddl::ast::*;
 use cddl::parser::Error;
 use cddl::pest_bridge::{cddl_from_pest_str, cddl_from_pest_str_checked};
@@ -391,9 +392,40 @@ fn parse(parts: &[&str]) -> String {
   }
 }
 
+// X\t<hex>: the public convert_pest_error on a pest error built at EVERY character-boundary offset of the text.
+// Answer: comma-separated "p index line column a b" (decimal)
+fn sweep(parts: &[&str]) -> String {
+  let text = match String::from_utf8(impl_driver::unhex(parts[1])) {
+    Ok(t) => t,
+    Err(_) => return "BADUTF8".to_string(),
+  };
+  let mut out = Vec::new();
+  for p in 0..=text.len() {
+    if !text.is_char_boundary(p) {
+      continue;
+    }
+    let pos = pest::Position::new(&text, p).unwrap();
+    let e = pest::error::Error::<PRule>::new_from_pos(
+      pest::error::ErrorVariant::CustomError {
+        message: String::new(),
+      },
+      pos,
+    );
+    match cddl::pest_bridge::convert_pest_error(e, &text) {
+      Error::PARSER { position, .. } => out.push(format!(
+        "{} {} {} {} {} {}",
+        p, position.index, position.line, position.column, position.range.0, position.range.1
+      )),
+      _ => out.push(format!("{} ?", p)),
+    }
+  }
+  out.join(",")
+}
+
 fn dispatch(parts: &[&str]) -> String {
   match parts[0] {
     "P" if parts.len() >= 2 => parse(parts),
+    "X" if parts.len() >= 2 => sweep(parts),
     _ => "?".to_string(),
   }
 }
